@@ -32,4 +32,5 @@ def run(tier, seed):
     from bounded import reftest_bounded as rb
     from bounded.core import attach
     attach(ctx, rb.run(('C10',), tier, seed))
-    return finish(ctx, 'other')
+    from runner.core import companion_replayer
+    return finish(ctx, 'other', replayers=[(r'.', companion_replayer(ctx, ('C10.',)))])
